@@ -143,22 +143,35 @@ Proof.
 Qed.
 
 (* ---- frombase: accepted exactly when the string is an optional sign followed by digits of the base ---- *)
-Theorem frombase_accepts base s : 2 <= base <= 36 -> no_space s ->
+Lemma frombase_guard_fact : frombase_short_guarded = true. Proof. reflexivity. Qed.
+
+Lemma shape_ok_nospace s : shape_ok s = true -> no_space s.
+Proof.
+  unfold shape_ok, split_sign. destruct s as [|c r]; [discriminate|].
+  destruct ((c =? 45) || (c =? 43)) eqn:Sg.
+  - destruct r as [|c2 r2]; [discriminate|]. destruct (forallb is_alnum (c2 :: r2)) eqn:Al; [|discriminate]. intros _.
+    constructor; [unfold is_space; lia | apply alnum_no_space; exact Al].
+  - destruct (forallb is_alnum (c :: r)) eqn:Al; [|discriminate]. intros _. apply alnum_no_space. exact Al.
+Qed.
+
+(* for the guarded policy, with no assumption on the string: white space anywhere, a digit at or above the base,
+   an inner sign, an empty digit part or any other character give nil, on the short path and on the chunked path *)
+Theorem frombase_pol_accepts base s : 2 <= base <= 36 ->
   (core_ok base s = true ->
      exists sg cs x, s = sg ++ cs /\ sign_ok sg /\ cs <> [] /\ Forall (char_ok base) cs /\
-       frombase s base = Ok x /\ wf x /\ uval x = (sign_val sg * dval base (map cval cs)) mod Wfull) /\
-  (core_ok base s = false -> frombase s base = Err ENone).
+       frombase_pol true s base = Ok x /\ wf x /\ uval x = (sign_val sg * dval base (map cval cs)) mod Wfull) /\
+  (core_ok base s = false -> frombase_pol true s base = Err ENone).
 Proof.
-  intros Hb Hs. split.
+  intros Hb. split.
   - intros Hc. destruct (core_ok_split base s Hc) as (sg & cs & E & Hsg & Hne & Hcs).
-    destruct (frombase_correct base sg cs Hb Hsg Hne Hcs) as (x & A & B & C). exists sg, cs, x. rewrite E. auto 10.
-  - intros Hc. unfold frombase. destruct ((2 <=? base) && (base <=? 36)) eqn:Eb; [|lia]. cbn [negb].
+    destruct (frombase_pol_correct true base sg cs Hb Hsg Hne Hcs) as (x & A & B & C). exists sg, cs, x. rewrite E. auto 10.
+  - intros Hc. unfold frombase_pol. destruct ((2 <=? base) && (base <=? 36)) eqn:Eb; [|lia]. cbn [negb].
     destruct (frombase_step base Hb) as (step & E1 & E2 & Hst & Hmax). rewrite E1, E2.
-    destruct (Nat.ltb_spec (length s) step) as [Lt|Ge].
-    + rewrite (tonumber_reject base s Hs Hc). reflexivity.
+    destruct ((length s <? step)%nat && shape_ok s) eqn:Short.
+    + apply andb_prop in Short. destruct Short as (_ & Sh).
+      rewrite (tonumber_reject base s (shape_ok_nospace s Sh) Hc). reflexivity.
     + pose proof (core_ok_lower base s) as Hl. rewrite Hc in Hl.
       set (t := map to_lower s) in *.
-      assert (Lt' : length t = length s) by (subst t; apply map_length).
       unfold split_sign. destruct t as [|c r] eqn:Et; [reflexivity|]. cbn [core_ok] in Hl.
       destruct ((c =? 45) || (c =? 43)) eqn:Sg.
       * destruct r as [|c2 r2]; [reflexivity|]. cbn [nonempty andb] in Hl.
@@ -166,6 +179,20 @@ Proof.
         rewrite (fb_loop_reject base step ltac:(lia) ltac:(lia) Hmax ltac:(change (2 ^ 63) with 9223372036854775808; lia)); auto.
       * destruct (forallb is_alnum (c :: r)) eqn:Al; [|reflexivity].
         rewrite (fb_loop_reject base step ltac:(lia) ltac:(lia) Hmax ltac:(change (2 ^ 63) with 9223372036854775808; lia)); auto.
+Qed.
+
+Theorem frombase_accepts base s : 2 <= base <= 36 ->
+  (core_ok base s = true ->
+     exists sg cs x, s = sg ++ cs /\ sign_ok sg /\ cs <> [] /\ Forall (char_ok base) cs /\
+       frombase s base = Ok x /\ wf x /\ uval x = (sign_val sg * dval base (map cval cs)) mod Wfull) /\
+  (core_ok base s = false -> frombase s base = Err ENone).
+Proof. unfold frombase. rewrite frombase_guard_fact. apply frombase_pol_accepts. Qed.
+
+(* the guard is needed: without it the short path reads " 1" (white space is skipped by tonumber) *)
+Theorem frombase_guard_needed :
+  ~ (forall base s, 2 <= base <= 36 -> core_ok base s = false -> frombase_pol false s base = Err ENone).
+Proof.
+  intros H. specialize (H 10 [32; 49] ltac:(lia) ltac:(reflexivity)). vm_compute in H. discriminate H.
 Qed.
 
 Example reject_example :
